@@ -539,6 +539,15 @@ def run(ctx):
     ctx.cover(pattern_host_pairs=n, patterns_refused_by_api=refused, merge_keeps_value_bindings=keeps[0], merge_keeps_node_bindings=keeps[1],
               output_count_failure_recorded=keeps[2], own_node_list_per_output_node=keeps[3],
               match_sound_applies_to_implementation=all(keeps[:3]), **batch.stats)
+    ctx.cover(generator="corpus/C06 (findings, feature cases) + bounded-exhaustive family (351 patterns with <=3 node patterns over "
+              "{Relu/Neg, Add, Sub, Split} x {repeated var, const, any, attr const/var/optional, allow_other_inputs/attributes, None / optional "
+              "input, domain, named / 2 outputs, several output nodes, OrValue dispatch/backtracking/name/tag} x all hosts with <=2 nodes, sampled "
+              "3- and 4-node hosts and their attribute/input/constant/graph-output variants; quick = one pattern per feature combination and a seeded "
+              "slice of hosts) + random patterns (<=3 nodes; thorough also <=8 nodes with hosts up to 20 nodes) with hosts instantiated from the "
+              "pattern and perturbed + hosts inside an If branch using outer values + commute=True; every node as root, with and without the "
+              "removability check; non-trivial key = (features, outcome, verdict, removability, number of instances)")
+    ctx.trust("harness/c06_spec.py: brute-force evaluation of the declarative meaning (enumeration of all node maps, cross-checked against a "
+              "nondeterministic search and, for every reported match, against the Coq instance checker)")
     for m in batch.meta[:: max(1, len(batch.meta) // 5)][:5]:
         ctx.sample({"pattern": m["p"], "host": m["h"], "root": m["root"], "removable": m["rm"], "observed": m["obs"][0]})
     if ctx.tier == "thorough":
